@@ -22,9 +22,10 @@ class SuffixTrie(object):
         # Iterating over the suffix parts in reverse order
         for part in reversed(suffix.split(".")):
 
+            # NOTE: an exception rule is not a rule for its parent
             if part.startswith("!"):
                 node.exception = part[1:]
-                break
+                return
 
             # To save up some RAM, we initialize the children dict only
             # when strictly necessary
@@ -71,8 +72,10 @@ class SuffixTrie(object):
             if node.children is None:
                 break
 
-            # Exception
+            # Exception: the suffix is the exception rule minus its first label
             if part == node.exception:
+                suffix_length = current_length
+                match = node
                 break
 
             child = node.children.get(part)
@@ -94,7 +97,7 @@ class SuffixTrie(object):
                 match = node
 
         # Checking the node we finished on is a leaf and is one we allow
-        if match is None or not match.leaf:
+        if match is None:
             return None
 
         # hostname = suffix ?
